@@ -78,7 +78,14 @@ where
         // do not answer on broadcast
         if header.destination != FrameDestination::Broadcast {
             let bytes = self.writer.format_ex(header, func, ex, self.decode)?;
-            io.write(bytes, self.decode.physical).await?;
+            write_reply(
+                io,
+                bytes,
+                self.decode.physical,
+                &mut self.commands,
+                &mut self.decode,
+            )
+            .await?;
         }
         Ok(())
     }
@@ -240,7 +247,14 @@ where
                     &mut self.writer,
                     self.decode,
                 )?;
-                io.write(reply, self.decode.physical).await?;
+                write_reply(
+                    io,
+                    reply,
+                    self.decode.physical,
+                    &mut self.commands,
+                    &mut self.decode,
+                )
+                .await?;
             }
             FrameDestination::Broadcast => match request.into_broadcast_request() {
                 None => {
@@ -255,6 +269,29 @@ where
         }
 
         Ok(())
+    }
+}
+
+/// Write a reply while still listening for the end of the session: a peer that does not take the
+/// reply (full TCP window, serial flow control) must not keep a shutdown from being honoured.
+/// A decode level change that arrives meanwhile takes effect after this reply.
+async fn write_reply(
+    io: &mut PhysLayer,
+    bytes: &[u8],
+    level: crate::decode::PhysDecodeLevel,
+    commands: &mut tokio::sync::mpsc::Receiver<ServerCommand>,
+    decode: &mut DecodeLevel,
+) -> Result<(), RequestError> {
+    let mut write = std::pin::pin!(io.write(bytes, level));
+    loop {
+        tokio::select! {
+            biased;
+            res = &mut write => return Ok(res?),
+            cmd = commands.recv() => match cmd {
+                None | Some(ServerCommand::Shutdown) => return Err(RequestError::Shutdown),
+                Some(ServerCommand::ChangeDecoding(level)) => *decode = level,
+            }
+        }
     }
 }
 
